@@ -75,6 +75,9 @@ type Case struct {
 	// driver serialises its calls with a mutex and cannot tell who calls Begin / Commit / Rollback
 	// (logged with transaction -1: the checker attributes them through the connection)
 	Free bool `json:"free"`
+	// free-running: while the transactions run, one more goroutine per SqlConn keeps making requests on it
+	// that fail (conn.Exec on the pool, the database is down for them) - its breaker opens while bodies run
+	Tripper bool `json:"tripper"`
 	Conns   []ConnSpec `json:"conns"`
 	Threads []Thread   `json:"threads"`
 	Sched   []int      `json:"sched"`
@@ -1126,16 +1129,44 @@ func runCase(c Case) (out Out) {
 				r.threadMain(t)
 			}(t)
 		}
+		stop := make(chan struct{})
+		var trippers sync.WaitGroup
+		if c.Tripper {
+			for _, conn := range r.conns {
+				trippers.Add(1)
+				go func(conn sqlx.SqlConn) {
+					defer trippers.Done()
+					<-start
+					for i := 0; i < 200000; i++ {
+						select {
+						case <-stop:
+							return
+						default:
+						}
+						_, _ = conn.Exec(tripQuery)
+						if i%64 == 0 {
+							runtime.Gosched()
+						}
+					}
+				}(conn)
+			}
+		}
 		close(start)
 		for _, th := range r.threads {
 			select {
 			case <-th.done:
 			case <-time.After(30 * time.Second):
 				out.Fail = "free-running transaction did not end"
+				close(stop)
 				return
 			}
 		}
+		close(stop)
+		trippers.Wait()
 		out.Log = p.log
+		if out.Log == nil {
+			out.Log = [][]any{}
+		}
 		out.ESched = []int{}
 		out.Used = p.used
 		out.InUse = r.inUse()
